@@ -75,19 +75,29 @@ def run_props(prop, tier, seed, workdir, res):
     """adds the OsEnv findings for `prop` to res (an arena Result)"""
     states, r = generate(workdir)
     events = execute(states, workdir)
+    from . import testtrace
+    corp = testtrace.corpus("os", workdir)            # the calls of the repository's own tests, same judge
+    base = 10000000
+    corp_states = {}
+    for ln in corp:
+        e = json.loads(ln)
+        corp_states[base + e["id"]] = dict(fn=e["fn"], dmax=e["dmax"], dnull=e["dnull"], pre=e["pre"], args=e["args"], corpus=e.get("prog", "tests"))
+        e["id"] += base
+        events.append(json.dumps(e, separators=(",", ":")))
     n, bad, st = judge(events, workdir)
     mine = 0
     for bd in bad:
+        s = corp_states.get(bd["i"]) or states[bd["i"] - 1]
         if bd["why"].startswith("ORACLE"):
-            raise tlc.TLCError("OsEnv: %s for %s" % (bd["why"], describe(states[bd["i"] - 1])))
+            raise tlc.TLCError("OsEnv: %s for %s" % (bd["why"], describe(s)))
         props, _, reason = bd["why"].partition(":")
         if prop not in props.split(","):
             continue
         mine += 1
-        s = states[bd["i"] - 1]
         res.violations.append(dict(desc="%s: %s" % (describe(s), reason), cluster="%s|%s" % (FN[s["fn"]], reason), slug="os-%s-%d" % (FN[s["fn"]], bd["i"]), dev=bd.get("dev", ""),
                                    props=props.split(","), replay=dict(kind="osenv", state=s, why=bd["why"])))
     res.coverage["osenv_cases"] = len(states)
+    res.coverage["osenv_calls_from_test_suite"] = len(corp)
     res.coverage["osenv_events"] = n
     res.coverage["states"] = res.coverage.get("states", 0) + r["distinct"]
     res.coverage["transitions"] = res.coverage.get("transitions", 0) + r["states"]
